@@ -185,9 +185,9 @@ func genC13(e *emitter, r *rng, thorough bool) {
 		}
 		emitCk("cdec.badck.rev", []byte{ck[3], ck[2], ck[1], ck[0]})
 		emitCk("cdec.badck.rot", []byte{ck[1], ck[2], ck[3], ck[0]})
-		emitCk("cdec.badck.sha1", crypto.Sha256(full)[:4])          // single instead of double SHA-256
-		emitCk("cdec.badck.tail", crypto.Sha256d(full)[28:])        // last instead of first four bytes
-		emitCk("cdec.badck.nover", crypto.Sha256d(full[1:])[:4])    // checksum over the payload without the version byte
+		emitCk("cdec.badck.sha1", crypto.Sha256(full)[:4])       // single instead of double SHA-256
+		emitCk("cdec.badck.tail", crypto.Sha256d(full)[28:])     // last instead of first four bytes
+		emitCk("cdec.badck.nover", crypto.Sha256d(full[1:])[:4]) // checksum over the payload without the version byte
 		// right checksum, other payload: one payload byte / the version byte changed
 		for _, pos := range []int{0, 1, len(full) - 1} {
 			x := append([]byte{}, full...)
